@@ -1,4 +1,12 @@
 """C17 - exceptions from configurables keep their type, data and traceback."""
+import asyncio
+import dataclasses
+import json
+import subprocess
+import types
+import urllib.error
+import warnings
+
 import gin
 from vf import rt
 from vf import world
@@ -88,7 +96,95 @@ def _group(n):
   return ExceptionGroup('grp', [ValueError(n), KeyError('k')])
 
 
-# name -> factory(n) (n is the S/F integer payload)
+# ---- classes that constrain their own subclassing (review item 1) -------------------------------
+class UCoded(Exception):
+  """every subclass statement must give the class keyword `code=`"""
+
+  def __init_subclass__(cls, code=None, **kw):
+    super().__init_subclass__(**kw)
+    if code is None:
+      raise TypeError('subclasses of UCoded must give code=')
+    cls.code = code
+
+
+class UNotFound(UCoded, code=404):
+  pass
+
+
+class UDeclMeta(type):
+  """a metaclass that validates each subclass: the class body must declare `kind`"""
+
+  def __new__(mcs, name, bases, ns, **kw):
+    if 'kind' not in ns:
+      raise TypeError('class %s must declare kind' % name)
+    return super().__new__(mcs, name, bases, ns, **kw)
+
+
+class UDeclBase(Exception, metaclass=UDeclMeta):
+  kind = 'base'
+
+
+class UDeclared(UDeclBase):
+  kind = 'declared'
+
+
+class UUnique(Exception):
+  """a plug-in style registry: two subclasses with one class name are rejected"""
+  names = set()
+
+  def __init_subclass__(cls, **kw):
+    super().__init_subclass__(**kw)
+    if cls.__name__ in UUnique.names:
+      raise TypeError('duplicate exception class name %s' % cls.__name__)
+    UUnique.names.add(cls.__name__)
+
+
+class UUniqueOne(UUnique):
+  pass
+
+
+def _uunique(n):
+  UUnique.names.clear()
+  UUnique.names.add('UUniqueOne')
+  return UUniqueOne(n)
+
+
+# ---- rich constructors / several bases (item 7), dataclasses (item 8) ------------------------------
+class UMulti(KeyError, AttributeError):
+  """two C-level layouts: KeyError's __str__, AttributeError's name / obj"""
+
+
+@dataclasses.dataclass(frozen=True)
+class UDataFrozen(Exception):
+  """constructed by keyword: args == (); fields live in the instance __dict__"""
+  code: int
+  label: str = 'lbl'
+
+
+@dataclasses.dataclass
+class UData(Exception):
+  code: int
+  items: list = dataclasses.field(default_factory=list)
+
+
+class UTypeNew(TypeError):
+  """a TypeError subclass with required __new__ arguments (passes through the TypeError branch)"""
+
+  def __new__(cls, a, b):
+    return super().__new__(cls, a, b)
+
+  def __init__(self, a, b):
+    super().__init__(a, b)
+
+
+def _udata(n):
+  e = UData(code=n)
+  e.items.append(n)
+  return e
+
+
+# name -> factory(n) (n is the S/F integer payload).  Indices are referred to by known_findings.json
+# (cls == 24): only ever append.
 FACTORIES = [
     ('ValueError', lambda n: ValueError('bad value', n)),
     ('KeyError', lambda n: KeyError(n)),
@@ -116,10 +212,262 @@ FACTORIES = [
     ('UnicodeEncodeError', lambda n: UnicodeEncodeError('ascii', 'abcdef', 2, 4, 'why')),
     ('UNewOdd', lambda n: UNewOdd(n, 'hidden')),
     ('UClassDefault', lambda n: UClassDefault(n)),
+    # -- 26.. : added by the vocabulary round
+    ('UNotFound', lambda n: UNotFound('not found', n)),
+    ('UDeclared', lambda n: UDeclared('declared', n)),
+    ('UUniqueOne', _uunique),
+    ('JSONDecodeError', lambda n: json.JSONDecodeError('bad json', 'line0\nline1 {', 8)),
+    ('CalledProcessError', lambda n: subprocess.CalledProcessError(n, ['prog', '-x'], output='out', stderr='err')),
+    ('UnicodeTranslateError', lambda n: UnicodeTranslateError('abcdef', 1, 3, 'untranslatable')),
+    ('HTTPError', lambda n: urllib.error.HTTPError('http://host/p', 404, 'not found', {'h': 'v'}, None)),
+    ('UMulti', lambda n: UMulti(n)),
+    ('KeyError(tuple)', lambda n: KeyError((1, n))),
+    ('UDataFrozen', lambda n: UDataFrozen(code=n)),
+    ('UData', _udata),
+    ('UTypeNew', lambda n: UTypeNew(n, 'b')),
 ]
 NF = len(FACTORIES)
+assert NF == 38 and FACTORIES[24][0] == 'UNewOdd'
+# no integer payload, or a constructor that converts/stringifies it (C-level int conversion, '%s'
+# formatting): S-inputs must not be realised, so the payload is concrete for these
+CONCRETE_PAYLOAD = ('UnicodeDecodeError', 'UnicodeEncodeError', 'ImportError', 'NameError', 'AssertionError',
+                    'BlockingIOError', 'UInit', 'JSONDecodeError', 'UnicodeTranslateError', 'HTTPError')
+
+
+# ---- probes of this module (gin module path vw17), registered once per process ---------------------
+RAISE = world.RAISE
+SEEN = [None]          # active scope recorded by the raising probe of this module just before it raises
+DA, DB = world.DA, world.DB
+
+
+def _mark():
+  SEEN[0] = list(gin.current_scope())
+
+
+def _build():
+  ns = types.SimpleNamespace()
+
+  @gin.configurable(module='vw17')
+  def bang(z=0):
+    _mark()
+    raise RAISE[0]
+
+  @gin.configurable(module='vw17')
+  class KInit:
+    def __init__(self, z=0):
+      _mark()
+      raise RAISE[0]
+
+  @gin.register(module='vw17')
+  class KReg:
+    def __init__(self, z=0):
+      _mark()
+      raise RAISE[0]
+
+  class _KExt:
+    def __init__(self, z=0):
+      _mark()
+      raise RAISE[0]
+
+  @gin.configurable(module='vw17')
+  class KNew:
+    def __new__(cls, z=0):
+      _mark()
+      raise RAISE[0]
+
+  @gin.register(module='vw17')
+  class KM:
+    def __init__(self):
+      pass
+
+    @gin.register
+    def meth(self, z=0):
+      _mark()
+      raise RAISE[0]
+
+  class _CallObj:
+    def __call__(self, z=0):
+      _mark()
+      raise RAISE[0]
+
+  @gin.configurable(module='vw17')
+  def rec(d=0):
+    if d <= 0:
+      _mark()
+      raise RAISE[0]
+    return rec(d - 1)
+
+  # natively raised exceptions (item 5): the interpreter / C code creates the instance
+  @gin.configurable(module='vw17')
+  def nat(z=0):
+    k = NAT_KIND[0]
+    try:
+      if k == 0:
+        raise ValueError          # class form: args == (), empty text
+      elif k == 1:
+        return 1 / z
+      elif k == 2:
+        return int('zz')
+      elif k == 3:
+        return open('/nonexistent-c17/dir/x')   # filename lives outside args
+      elif k == 4:
+        assert z, 'assert message'
+      elif k == 5:
+        with warnings.catch_warnings():
+          warnings.simplefilter('error')
+          warnings.warn('warned c17', UserWarning)
+      elif k == 6:
+        return [][z]
+      elif k == 7:
+        return {}['missing key']
+      elif k == 8:
+        return None.no_such_attr      # AttributeError with name / obj
+      elif k == 9:
+        return no_such_global_c17     # NameError with name  # noqa: F821
+      elif k == 10:
+        return next(iter(()))         # StopIteration
+      elif k == 11:
+        return 'caf\xe9'.encode('ascii')   # UnicodeEncodeError with object/start/end/reason
+      elif k == 12:
+        import no_such_module_c17     # ModuleNotFoundError with name  # noqa: F401
+      elif k == 13:
+        return json.loads('{"a": ')   # JSONDecodeError built by the json module
+      elif k == 14:
+        try:
+          return {}['inner']
+        except KeyError as inner:
+          raise RuntimeError('outer', z) from inner
+      else:
+        raise rt.HarnessError('no such native kind %r' % (k,))
+    except rt.HarnessError:
+      raise
+    except BaseException as e:
+      entries = []
+      tb = e.__traceback__
+      while tb is not None:
+        entries.append((tb.tb_frame.f_code.co_name, tb.tb_lineno))
+        tb = tb.tb_next
+      NAT_ORIG[0] = (e, entries, list(gin.current_scope()))
+      raise
+
+  @gin.configurable(module='vw17')
+  def natouter(z=0):
+    with gin.config_scope('deep17'):
+      return nat()
+
+  # TypeError of a call (item 6)
+  @gin.configurable(module='vw17')
+  class KT:
+    def __init__(self, a, b=DB):
+      world.rec('KT', a, b)
+
+  @gin.register(module='vw17')
+  class KTReg:
+    def __init__(self, a, b=DB):
+      world.rec('KTReg', a, b)
+
+  class _KTExt:
+    def __init__(self, a, b=DB):
+      world.rec('KTExt', a, b)
+
+  @gin.configurable(module='vw17')
+  class KTNew:
+    def __new__(cls, a, b=DB):
+      world.rec('KTNew', a, b)
+      return super().__new__(cls)
+
+  class _CallT:
+    def __call__(self, a, b=DB):
+      world.rec('callt', a, b)
+
+  @gin.configurable(module='vw17')
+  def t3(a, b, *, c=0):
+    world.rec('t3', a, b, c=c)
+
+  @gin.configurable(module='vw17')
+  def tbody(a, b=DB):
+    raise TypeError('body says no', a)
+
+  @gin.register(module='vw17')
+  class KTM:
+    def __init__(self):
+      pass
+
+    @gin.register
+    def meth(self, a, b=DB):
+      world.rec('KTM.meth', a, b)
+
+  ns.bang, ns.KInit, ns.KReg, ns.KNew, ns.KM, ns.rec, ns.nat, ns.natouter = (
+      bang, KInit, KReg, KNew, KM, rec, nat, natouter)
+  ns.KExt = gin.external_configurable(_KExt, 'KExt', module='vw17')
+  ns.callobj = gin.external_configurable(_CallObj(), 'callobj', module='vw17')
+  ns.KT, ns.KTReg, ns.KTNew, ns.t3, ns.tbody, ns.KTM = KT, KTReg, KTNew, t3, tbody, KTM
+  ns.RawKTExt, ns.rawcallt = _KTExt, _CallT()
+  ns.KTExt = gin.external_configurable(_KTExt, 'KTExt', module='vw17')
+  ns.callt = gin.external_configurable(ns.rawcallt, 'callt', module='vw17')
+  ns.sum17 = gin.external_configurable(sum, 'sum17', module='vw17')
+  return ns
+
+
+NAT_KIND = [0]
+NAT_ORIG = [None]
+if not hasattr(world, '_vw17_probes'):     # idempotent: a second import reuses the registered probes
+  world._vw17_probes = _build()
+P = world._vw17_probes
+# `nat` reads the module-level cells of the module that built it; keep one set per process
+if hasattr(world, '_vw17_cells'):
+  NAT_KIND, NAT_ORIG, SEEN = world._vw17_cells
+else:
+  world._vw17_cells = (NAT_KIND, NAT_ORIG, SEEN)
+
 PASS_THROUGH = [KeyboardInterrupt, SystemExit, GeneratorExit]
-HOW = ['direct call', 'nested 1', 'nested 2 (scope deep)', 'via evaluated reference', 'in scope s']
+
+
+class UBase(BaseException):
+  """not an Exception subclass, required constructor arguments"""
+
+  def __init__(self, a, b):
+    super().__init__(a)
+    self.b = b
+
+
+def _cancelled(n):
+  return asyncio.CancelledError(n)
+
+
+# (factory, how the payload is read back)
+PASS_MORE = [
+    (_cancelled, lambda e: e.args[0]),
+    (lambda n: BaseExceptionGroup('bgrp', [KeyboardInterrupt(n), ValueError('v')]), lambda e: e.exceptions[0].args[0]),
+    (lambda n: UBase(n, 'bee'), lambda e: e.args[0]),
+]
+
+# how the exception is raised: (text, configurable named by the suffix, scope the harness itself set up
+# (None: whatever the raising probe saw), code name of the frame that raises)
+HOW = [
+    ('direct call', 'boom', None, 'boom'),
+    ('nested 1', 'boom', None, 'boom'),
+    ('nested 2 (scope deep)', 'boom', 'deep', 'boom'),
+    ('via evaluated reference', 'boom', None, 'boom'),
+    ('in scope s', 'boom', 's', 'boom'),
+    # -- 5.. : added by the vocabulary round; raised by the probes of this module, which record the active scope
+    ("scoped evaluated reference inside nested containers {'k': (@s/vw17.bang(),)}", 'bang', 's', 'bang'),
+    ("gin.get_configurable('s/vw17.bang')()", 'bang', 's', 'bang'),
+    ('macro M = @vw17.bang(), used through %M', 'bang', None, 'bang'),
+    ('constructor of @k/gin.singleton(), used again after the failure', 'bang', None, 'bang'),
+    ("gin.get_bindings('vw.cons') evaluating @vw17.bang()", 'bang', None, 'bang'),
+    ('the same instance raised a second time', 'bang', None, 'bang'),
+    ('__init__ of a @gin.configurable class', 'KInit', None, '__init__'),
+    ('registry version of a @gin.register class', 'KReg', None, '__init__'),
+    ('class returned by gin.external_configurable', 'KExt', None, '__init__'),
+    ('__new__ of a @gin.configurable class', 'KNew', None, '__new__'),
+    ('registered method of a registered class (registry version)', 'meth', None, 'meth'),
+    ('callable object registered by external_configurable', 'callobj', None, '__call__'),
+    ('evaluated scoped reference to a registered class @t/vw17.KReg()', 'KReg', 't', '__init__'),
+]
+NH = len(HOW)
+assert NH == 18
+OLD_HOWS = 5
 
 
 def public_attrs(o):
@@ -137,6 +485,11 @@ def public_attrs(o):
   return out
 
 
+def _parse(text):
+  with rt.native():
+    gin.parse_config(text)
+
+
 def trigger(how):
   if how == 0:
     world.boom()
@@ -145,30 +498,75 @@ def trigger(how):
   elif how == 2:
     world.outer2()
   elif how == 3:
-    with rt.native():
-      gin.parse_config('vw.cons.p = [@vw.boom()]')
+    _parse('vw.cons.p = [@vw.boom()]')
     world.cons()
-  else:
+  elif how == 4:
     with gin.config_scope('s'):
       world.boom()
+  elif how == 5:
+    _parse("vw.cons.p = {'k': (@s/vw17.bang(),)}")
+    world.cons()
+  elif how == 6:
+    gin.get_configurable('s/vw17.bang')()
+  elif how == 7:
+    _parse('M = @vw17.bang()\nvw.cons.q = [%M]')
+    world.cons()
+  elif how == 8:
+    _parse('vw.cons.p = @k/gin.singleton()\nk/gin.singleton.constructor = @vw17.bang')
+    try:
+      world.cons()
+    except Exception:
+      pass
+    world.cons()
+  elif how == 9:
+    _parse('vw.cons.p = @vw17.bang()')
+    gin.get_bindings('vw.cons')
+  elif how == 10:
+    try:
+      P.bang()
+    except Exception:
+      pass
+    P.bang()
+  elif how == 11:
+    P.KInit()
+  elif how == 12:
+    gin.get_configurable(P.KReg)()
+  elif how == 13:
+    P.KExt()
+  elif how == 14:
+    P.KNew()
+  elif how == 15:
+    gin.get_configurable(P.KM)().meth()
+  elif how == 16:
+    P.callobj()
+  else:
+    _parse('vw.cons.p = @t/vw17.KReg()')
+    world.cons()
+
+
+def tb_names(e):
+  tb = e.__traceback__
+  fns = []
+  while tb is not None:
+    fns.append(tb.tb_frame.f_code.co_name)
+    tb = tb.tb_next
+  return fns
 
 
 def c17_attrs(cls: int, how: int, n: int) -> bool:
   """
-  pre: 0 <= cls < 26 and 0 <= how < 5
+  pre: 0 <= cls < 38 and 0 <= how < 18
   """
   world.fresh()
   cls = rt.pick(cls, NF)
-  how = rt.pick(how, 5)
+  how = rt.pick(how, NH)
   name, factory = FACTORIES[cls]
   rt.sig(('attrs', name, how), nontrivial=True)
-  if name in ('UnicodeDecodeError', 'UnicodeEncodeError', 'ImportError', 'NameError', 'AssertionError',
-              'BlockingIOError', 'UInit'):
-    # no integer payload, or a constructor that converts/stringifies it (C-level
-    # int conversion, '%s' formatting): S-inputs must not be realised, so it is concrete
+  if name in CONCRETE_PAYLOAD:
     n = 5
   orig = factory(n)
   world.RAISE[0] = orig
+  SEEN[0] = None
   caught = None
   try:
     trigger(how)
@@ -185,13 +583,12 @@ def c17_attrs(cls: int, how: int, n: int) -> bool:
     names = public_attrs(orig)
     if type(caught).__name__ != type(orig).__name__ or type(caught).__module__ != type(orig).__module__:
       return rt.no('class name/module')
-    tb = caught.__traceback__
-    fns = []
-    while tb is not None:
-      fns.append(tb.tb_frame.f_code.co_name)
-      tb = tb.tb_next
-    if 'boom' not in fns:
+    fns = tb_names(caught)
+    site = HOW[how][3]
+    if site not in fns:
       return rt.no('original traceback frames lost: %r' % fns)
+    if how >= OLD_HOWS and fns[-1] != site:
+      return rt.no('the traceback does not end where the exception was raised: %r' % fns)
   for a in names:
     try:
       got = getattr(caught, a)
@@ -209,13 +606,25 @@ def c17_attrs(cls: int, how: int, n: int) -> bool:
   return True
 
 
-def c17_msg(cls: int, how: int, n: int) -> bool:
+def suffix_ok(suffix, conf, scope):
+  if ("In call to configurable '%s'" % conf) not in suffix:
+    return rt.no('suffix does not name the configurable %s: %r' % (conf, suffix))
+  if scope and ("in scope '%s'" % scope) not in suffix:
+    return rt.no('suffix does not name the scope %s: %r' % (scope, suffix))
+  return True
+
+
+MSG_GROUPS = 13   # c17_msg partitions: classes cls with cls % 13 == grp (a failing class sinks only its group)
+
+
+def c17_msg(cls: int, how: int, n: int, grp: int = -1) -> bool:
   """
-  pre: 0 <= cls < 26 and 0 <= how < 5 and 0 <= n < 3
+  pre: 0 <= cls < 38 and 0 <= how < 18 and 0 <= n < 3
+  pre: grp < 0 or cls % 13 == grp
   """
   world.fresh()
   cls = rt.pick(cls, NF)
-  how = rt.pick(how, 5)
+  how = rt.pick(how, NH)
   n = [0, 7, -12345][rt.pick(n, 3)]
   name, factory = FACTORIES[cls]
   rt.sig(('msg', name, how, n), nontrivial=True)
@@ -223,6 +632,7 @@ def c17_msg(cls: int, how: int, n: int) -> bool:
     orig = factory(n)
     text = str(orig)
     world.RAISE[0] = orig
+    SEEN[0] = None
     caught = None
     try:
       trigger(how)
@@ -234,11 +644,14 @@ def c17_msg(cls: int, how: int, n: int) -> bool:
     if not got.startswith(text):
       return rt.no('message %r does not start with the original %r' % (got, text))
     suffix = got[len(text):]
-    if "In call to configurable 'boom'" not in suffix:
-      return rt.no('suffix does not name the configurable: %r' % suffix)
-    scope = {2: 'deep', 4: 's'}.get(how)
-    if scope and ("in scope '%s'" % scope) not in suffix:
-      return rt.no('suffix does not name the scope')
+    _, conf, scope, _ = HOW[how]
+    if not suffix_ok(suffix, conf, scope):
+      return False
+    if how >= OLD_HOWS:
+      if SEEN[0] is None:
+        raise rt.HarnessError('the raising probe did not run (how=%d)' % how)
+      if not suffix_ok(suffix, conf, '/'.join(SEEN[0])):     # the scope that was active where it was raised
+        return False
     if how in (1, 2) and "configurable 'outer1'" not in suffix:
       return rt.no('outer level missing')
     return True
@@ -246,21 +659,152 @@ def c17_msg(cls: int, how: int, n: int) -> bool:
 
 def c17_passthrough(cls: int, how: int, n: int) -> bool:
   """
-  pre: 0 <= cls < 3 and 0 <= how < 5
+  pre: 0 <= cls < 6 and 0 <= how < 18
   """
   world.fresh()
-  cls = rt.pick(cls, 3)
-  how = rt.pick(how, 5)
+  cls = rt.pick(cls, 6)
+  how = rt.pick(how, NH)
   rt.sig(('pass', cls, how), nontrivial=True)
-  orig = PASS_THROUGH[cls](n)
+  if cls < 3:
+    orig = PASS_THROUGH[cls](n)
+    read = None
+  else:
+    orig = PASS_MORE[cls - 3][0](n)
+    read = PASS_MORE[cls - 3][1]
   world.RAISE[0] = orig
   try:
     trigger(how)
   except BaseException as e:
-    return e is orig and rt.same('args', e.args[0], n)
+    if read is None:
+      return e is orig and rt.same('args', e.args[0], n)
+    return e is orig and rt.same('payload', read(e), n)
   return False
 
 
+# ---- every nesting depth (item 12): a self-recursive configurable -----------------------------------------
+DEPTHS = [3, 10, 30, 100, 200]   # 200: thorough tier only
+# classes taken to depth (indices of FACTORIES): builtin with C-level fields, group, user classes of each
+# construction kind, dataclass.  UNewOdd (known finding) and the item-1 classes are judged by c17_attrs / c17_msg.
+DEPTH_CLS = [0, 4, 6, 9, 11, 13, 16, 17, 18, 19, 20, 25, 30, 33, 35, 36]
+
+
+def c17_depth(cls: int, depth: int, scoped: bool) -> bool:
+  """
+  pre: 0 <= cls < 16 and 0 <= depth < 5
+  """
+  world.fresh()
+  cls = DEPTH_CLS[rt.pick(cls, len(DEPTH_CLS))]
+  depth = DEPTHS[rt.pick(depth, len(DEPTHS))]
+  scoped = rt.flag(scoped)
+  name, factory = FACTORIES[cls]
+  rt.sig(('depth', name, depth, scoped), nontrivial=True)
+  with rt.native():
+    orig = factory(7)
+    text = str(orig)
+    world.RAISE[0] = orig
+    SEEN[0] = None
+    gin.bind_parameter(('r' if scoped else '', 'vw17.rec', 'd'), depth)
+    caught = None
+    try:
+      if scoped:
+        with gin.config_scope('r'):
+          P.rec()
+      else:
+        P.rec()
+    except type(orig) as e:
+      caught = e
+    except BaseException as e:
+      return rt.no('%s arrived as %r at depth %d' % (name, type(e), depth))
+    if caught is None:
+      return rt.no('nothing raised')
+    if type(caught).__name__ != type(orig).__name__ or type(caught).__module__ != type(orig).__module__:
+      return rt.no('class name/module')
+    fns = tb_names(caught)
+    if fns[-1] != 'rec' or fns.count('rec') < depth + 1:
+      return rt.no('the traceback lost frames of the recursion: %d of %d' % (fns.count('rec'), depth + 1))
+    for a in public_attrs(orig):
+      try:
+        got = getattr(caught, a)
+      except Exception:
+        return rt.no('attribute %s unreadable at depth %d' % (a, depth))
+      want = getattr(orig, a)
+      if a == 'exceptions':
+        if got is not want and tuple(got) != tuple(want):
+          return rt.no('exceptions')
+        continue
+      if not (got is want or got == want):
+        return rt.no('attribute %s of %s at depth %d' % (a, name, depth))
+    got = str(caught)
+    if not got.startswith(text):
+      return rt.no('message %r does not start with the original %r' % (got[:200], text))
+    return suffix_ok(got[len(text):], 'rec', 'r' if scoped else None)
+
+
+# ---- natively raised exceptions (item 5) ----------------------------------------------------------------------
+NAT_KINDS = ['raise ValueError (class form)', '1 / 0', "int('zz')", 'open() of a missing file', 'assert',
+             'warnings.warn under simplefilter(error)', '[][0]', "{}['missing key']", 'None.no_such_attr',
+             'undefined global name', 'next(iter(()))', "'caf\\xe9'.encode('ascii')", 'import of a missing module',
+             "json.loads('{\"a\": ')", 'raise ... from inner (explicit chaining)']
+NAT_WAYS = ['direct call', 'nested, under scope deep17', "evaluated reference [{'k': @s/vw17.nat()}]",
+            "gin.get_configurable('s/t/vw17.nat')()"]
+
+
+def c17_native(kind: int, way: int) -> bool:
+  """
+  pre: 0 <= kind < 15 and 0 <= way < 4
+  """
+  world.fresh()
+  kind = rt.pick(kind, len(NAT_KINDS))
+  way = rt.pick(way, len(NAT_WAYS))
+  rt.sig(('native', kind, way), nontrivial=True)
+  with rt.native():
+    NAT_KIND[0] = kind
+    NAT_ORIG[0] = None
+    caught = None
+    try:
+      if way == 0:
+        P.nat()
+      elif way == 1:
+        P.natouter()
+      elif way == 2:
+        gin.parse_config("vw.cons.q = [{'k': @s/vw17.nat()}]")
+        world.cons()
+      else:
+        gin.get_configurable('s/t/vw17.nat')()
+    except Exception as e:
+      caught = e
+    if NAT_ORIG[0] is None:
+      raise rt.HarnessError('the native probe did not raise (kind=%d)' % kind)
+    orig, entries, scope = NAT_ORIG[0]
+    if caught is None:
+      return rt.no('nothing raised')
+    if not isinstance(caught, type(orig)):
+      return rt.no('%r arrived as %r' % (type(orig), type(caught)))
+    if type(caught).__name__ != type(orig).__name__ or type(caught).__module__ != type(orig).__module__:
+      return rt.no('class name/module')
+    tb = caught.__traceback__
+    got_entries = []
+    while tb is not None:
+      got_entries.append((tb.tb_frame.f_code.co_name, tb.tb_lineno))
+      tb = tb.tb_next
+    if not entries or got_entries[-len(entries):] != entries:
+      return rt.no('the traceback does not end with the original one: %r vs %r' % (got_entries[-3:], entries))
+    for a in public_attrs(orig):
+      try:
+        got = getattr(caught, a)
+      except Exception:
+        return rt.no('attribute %s unreadable on the caught exception' % a)
+      want = getattr(orig, a)
+      if not (got is want or got == want):
+        return rt.no('attribute %s: %r, original %r' % (a, got, want))
+    text = str(orig)
+    got = str(caught)
+    if not got.startswith(text):
+      return rt.no('message %r does not start with the original %r' % (got, text))
+    return suffix_ok(got[len(text):], 'nat', '/'.join(scope))
+
+
+# ---- TypeError raised by the call itself ------------------------------------------------------------------------
 ODD_NAMES = ['plain', '{x}', '{', '{0}', 'a}b{', '%s', '{!r}']
 
 
@@ -296,6 +840,93 @@ def c17_missing_positional(kwname: int, boundname: int, scoped: bool, v: int) ->
         'message %r' % msg)
 
 
+def _raw(fn):
+  return getattr(fn, '__wrapped__', fn)
+
+
+# (text, configurable named by the suffix, bindings (parameter names) made before the call,
+#  the call through Gin (v = bound value), the same call on the undecorated callable)
+TSHAPES = [
+    ('__init__(self, a, b=..) of a @gin.configurable class, a missing', 'KT', ('vw17.KT', ['b']),
+     lambda v: P.KT(), lambda v: _raw(P.KT.__init__)(object.__new__(P.KT), b=v)),
+    ('registry version of a @gin.register class, a missing', 'KTReg', ('vw17.KTReg', ['b']),
+     lambda v: gin.get_configurable(P.KTReg)(), lambda v: P.KTReg(b=v)),
+    ('class returned by external_configurable, a missing', 'KTExt', ('vw17.KTExt', []),
+     lambda v: P.KTExt(), lambda v: P.RawKTExt()),
+    ('var(a, b=.., *rest), a missing', 'var', ('vw.var', ['b']),
+     lambda v: world.var(), lambda v: _raw(world.var)(b=v)),
+    ('builtin sum() through the wrappability lambda, iterable missing', 'sum17', ('vw17.sum17', []),
+     lambda v: P.sum17(), lambda v: sum()),
+    ('callable object __call__(self, a, b=..), a missing', 'callt', ('vw17.callt', ['b']),
+     lambda v: P.callt(), lambda v: P.rawcallt(b=v)),
+    ('plain(a, b) called plain(gin.REQUIRED): a from Gin, b missing', 'plain', ('vw.plain', ['a']),
+     lambda v: world.plain(gin.REQUIRED), lambda v: _raw(world.plain)(v)),
+    ('t3(a, b, *, c) called t3(gin.REQUIRED, c=gin.REQUIRED): a, c from Gin, b missing', 't3', ('vw17.t3', ['a', 'c']),
+     lambda v: P.t3(gin.REQUIRED, c=gin.REQUIRED), lambda v: _raw(P.t3)(v, c=v)),
+    ('TypeError raised by the body, nothing missing', 'tbody', ('vw17.tbody', ['b']),
+     lambda v: P.tbody(1), lambda v: _raw(P.tbody)(1, b=v)),
+    ('__new__(cls, a, b=..) of a @gin.configurable class, a missing', 'KTNew', ('vw17.KTNew', ['b']),
+     lambda v: P.KTNew(), lambda v: _raw(P.KTNew.__new__)(P.KTNew, b=v)),
+    ('registered method meth(self, a, b=..) on the registry version, a missing', 'meth', ('vw17.KTM.meth', ['b']),
+     lambda v: gin.get_configurable(P.KTM)().meth(), lambda v: _raw(P.KTM.meth)(P.KTM(), b=v)),
+    ('unexpected keyword from the caller (nothing missing)', 'dflt', ('vw.dflt', ['b']),
+     lambda v: world.dflt(nope=1), lambda v: _raw(world.dflt)(nope=1, b=v)),
+]
+
+
+def c17_typeerror(shape: int, scoped: bool, v: int) -> bool:
+  """
+  pre: 0 <= shape < 12
+  """
+  world.fresh()
+  shape = rt.pick(shape, len(TSHAPES))
+  scoped = rt.flag(scoped)
+  rt.sig(('typeerror', shape, scoped), nontrivial=True)
+  _, conf, (sel, params), call, rawcall = TSHAPES[shape]
+  # what Python itself says for this call (the original text)
+  try:
+    rawcall(v)
+    raise rt.HarnessError('the undecorated call of shape %d raised nothing' % shape)
+  except TypeError as e:
+    raw = e
+  del world.LOG[:]
+  for p in params:
+    gin.bind_parameter(('s' if scoped else '', sel, p), v)
+  caught = None
+  try:
+    if scoped:
+      with gin.config_scope('s'):
+        call(v)
+    else:
+      call(v)
+  except TypeError as e:
+    caught = e
+  except Exception as e:
+    with rt.native():
+      return rt.no('the TypeError of the call arrived as %r' % (e,))
+  if caught is None or world.LOG:
+    return rt.no('no TypeError')
+  if len(caught.args) != len(raw.args):
+    return rt.no('args')
+  for got, want in zip(caught.args, raw.args):
+    if not (got is want or rt.same('args', got, want)):
+      return rt.no('args')
+  with rt.native():
+    if type(caught).__name__ != 'TypeError' or type(caught).__module__ != 'builtins':
+      return rt.no('class name/module')
+    text = str(raw)
+    got = str(caught)
+    if not got.startswith(text):
+      return rt.no('message %r does not start with the original %r' % (got, text))
+    return suffix_ok(got[len(text):], conf, 's' if scoped else None)
+
+
+OUTSIDE = ('dunder attributes of the caught exception (__cause__, __suppress_context__, __notes__, __dict__) and what '
+           'callers do with it afterwards (pickle, copy, ==, hash, except*, attribute writes): the statement speaks of '
+           'class, except clauses, traceback, public attributes and the message only; generator / async configurables '
+           '(the body runs outside the Gin wrapper); recursion deeper than 100 (thorough tier: 200) configurable calls '
+           '(interpreter recursion limit); exception classes whose __new__ returns an object of another class')
+
 HARNESSES = {
     'c17_missing_positional': dict(
         fn='c17_missing_positional',
@@ -305,26 +936,69 @@ HARNESSES = {
                'thorough': dict(split=dict(kwname=list(range(7)), boundname=list(range(7))), budget_s=60)},
         bounds='TypeError of a missing positional argument with caller keyword names / Gin-bound **kwargs names '
                'containing format metacharacters ({x}, {, {0}, %s, {!r}), scoped or not'),
+    'c17_typeerror': dict(
+        fn='c17_typeerror',
+        anchors=['gin.config:gin_wrapper', 'gin.utils:augment_exception_message_and_reraise',
+                 'gin.config:_get_all_positional_parameter_names'],
+        smoke=[dict(shape=s, scoped=bool(s % 2), v=3) for s in range(len(TSHAPES))],
+        tiers={'quick': dict(split=dict(shape=list(range(len(TSHAPES)))), budget_s=60),
+               'thorough': dict(split=dict(shape=list(range(len(TSHAPES))), scoped=[False, True]), budget_s=120)},
+        bounds='TypeError raised by the call itself, 12 shapes: ' + '; '.join(t[0] for t in TSHAPES) +
+               '; scoped or not; bound value: all ints.  Judged: still a builtins.TypeError with the args and text '
+               'Python gives for the same call on the undecorated callable, extended by a suffix naming the '
+               'configurable and scope'),
     'c17_attrs': dict(
         fn='c17_attrs',
         anchors=['gin.utils:augment_exception_message_and_reraise', 'gin.config:gin_wrapper'],
-        smoke=[dict(cls=3, how=2, n=4), dict(cls=13, how=0, n=4), dict(cls=17, how=3, n=4)],
+        smoke=[dict(cls=3, how=2, n=4), dict(cls=13, how=0, n=4), dict(cls=17, how=3, n=4)] +
+              # every new way paired with a new class (13 ways, 12 classes)
+              [dict(cls=26 + (h - OLD_HOWS) % (NF - 26), how=h, n=4) for h in range(OLD_HOWS, NH)],
         tiers={'quick': dict(split=dict(cls=list(range(NF))), budget_s=100),
-               'thorough': dict(split=dict(cls=list(range(NF)), how=list(range(5))), budget_s=300)},
-        bounds='26 exception classes (16 builtin incl. OSError family, StopIteration, SyntaxError, ImportError, '
-               'AttributeError, Unicode errors, ExceptionGroup; 8 user classes: class-level defaults overridden on the instance, required __init__ / __new__ arguments (recoverable from args or not), '
-               'extra attributes, __slots__, custom __str__, property) x 5 ways of raising (direct, nested 1-2 levels, '
-               'while evaluating a reference, under a scope); integer payload: all ints; every public non-callable '
-               'attribute of the original compared'),
+               # (nothing is deeper in the thorough tier: the payload is symbolic in both)
+               'thorough': dict(split=dict(cls=list(range(NF))), budget_s=300)},
+        bounds='38 exception classes (16 builtin incl. OSError family, StopIteration, SyntaxError, ImportError, '
+               'AttributeError, Unicode errors, ExceptionGroup; 8 user classes: class-level defaults overridden on '
+               'the instance, required __init__ / __new__ arguments (recoverable from args or not), extra attributes, '
+               '__slots__, custom __str__, property; 3 user classes that constrain subclassing: __init_subclass__ with a '
+               'required class keyword, a metaclass validating the class body, a duplicate-name registry; stdlib classes '
+               'with rich constructors: json.JSONDecodeError, subprocess.CalledProcessError, UnicodeTranslateError, '
+               'urllib.error.HTTPError; multiple inheritance KeyError+AttributeError; KeyError with a tuple key; frozen and '
+               'plain dataclass exceptions; TypeError subclass with required __new__ arguments) x 18 ways of raising: ' +
+               '; '.join(h[0] for h in HOW) + '.  Integer payload: all ints; every public non-callable attribute of '
+               'the original compared; the traceback must end in the frame that raised'),
     'c17_msg': dict(
         fn='c17_msg', anchors=['gin.utils:augment_exception_message_and_reraise'],
-        smoke=[dict(cls=0, how=4, n=1), dict(cls=20, how=2, n=2)],
-        tiers={'quick': dict(split=dict(how=list(range(5))), budget_s=100),
-               'thorough': dict(split=dict(how=list(range(5)), n=[0, 1, 2]), budget_s=300)},
-        bounds='same classes and ways; message = original text + suffix naming configurable and scope; payload in {0, 7, -12345}'),
+        smoke=[dict(cls=0, how=4, n=1), dict(cls=20, how=2, n=2)] +
+              [dict(cls=(4 + 3 * h) % 24, how=h, n=h % 3) for h in (5, 7, 8, 12, 15, 17)] +
+              [dict(cls=29, how=6, n=0), dict(cls=35, how=9, n=1)],
+        tiers={'quick': dict(split=dict(grp=list(range(MSG_GROUPS))), budget_s=100),
+               'thorough': dict(split=dict(grp=list(range(MSG_GROUPS)), n=[0, 1, 2]), budget_s=300)},
+        bounds='same classes and ways; message = original text + suffix naming the configurable and the scope that was '
+               'active where the exception was raised (recorded by the raising probe); payload in {0, 7, -12345}'),
     'c17_passthrough': dict(
         fn='c17_passthrough', anchors=['gin.config:gin_wrapper'],
-        smoke=[dict(cls=0, how=1, n=3)],
-        tiers={'quick': dict(split={}, budget_s=60), 'thorough': dict(split={}, budget_s=60)},
-        bounds='KeyboardInterrupt, SystemExit, GeneratorExit through all 5 ways: the very object arrives'),
+        smoke=[dict(cls=0, how=1, n=3), dict(cls=3, how=5, n=3), dict(cls=4, how=12, n=3), dict(cls=5, how=8, n=3)],
+        tiers={'quick': dict(split=dict(cls=list(range(6))), budget_s=60),
+               'thorough': dict(split=dict(cls=list(range(6))), budget_s=120)},
+        bounds='KeyboardInterrupt, SystemExit, GeneratorExit, asyncio.CancelledError, BaseExceptionGroup holding a '
+               'KeyboardInterrupt, a user BaseException subclass with required arguments, through all 18 ways: the very '
+               'object arrives'),
+    'c17_depth': dict(
+        fn='c17_depth', anchors=['gin.utils:augment_exception_message_and_reraise', 'gin.config:gin_wrapper'],
+        smoke=[dict(cls=1, depth=3, scoped=True), dict(cls=5, depth=2, scoped=False), dict(cls=14, depth=1, scoped=False),
+               dict(cls=0, depth=4, scoped=True)],
+        tiers={'quick': dict(split=dict(depth=[0, 1, 2, 3]), budget_s=100),
+               'thorough': dict(split=dict(depth=[0, 1, 2, 3, 4], scoped=[False, True]), budget_s=100)},
+        bounds='a self-recursive configurable raising at depth 3, 10, 30, 100 (thorough: also 200; one proxy layer per level), 16 of the '
+               'classes, scoped or not: class, except clause, all public attributes, traceback holds every level and ends at '
+               'the raise, message starts with the original text and names configurable and scope'),
+    'c17_native': dict(
+        fn='c17_native', anchors=['gin.utils:augment_exception_message_and_reraise', 'gin.config:gin_wrapper'],
+        smoke=[dict(kind=k, way=k % 4) for k in range(len(NAT_KINDS))],
+        tiers={'quick': dict(split=dict(way=[0, 1, 2, 3]), budget_s=100),
+               'thorough': dict(split=dict(way=[0, 1, 2, 3]), budget_s=100)},
+        bounds='exceptions created by the interpreter / C code inside the configurable rather than prebuilt: ' +
+               '; '.join(NAT_KINDS) + ' x 4 ways (' + '; '.join(NAT_WAYS) + '); compared with the instance as it was '
+               'at the raise site (captured by the probe): class, public attributes incl. filename / name / obj / '
+               'value / start / end, traceback tail (function, line), message prefix, suffix naming configurable and scope'),
 }
